@@ -24,6 +24,7 @@ def run(ctx):
     ctx.require_ok("SIM FakeTrxMC flow mode, depth 40, invariants in every state", r)
     schedules(ctx)
     traces = [FC.traffic_session(ctx, "s%d" % k, ID) for k in range(ctx.pick(110, 5000))]
+    traces += [FC.flood_session(ctx, "f%d" % k) for k in range(ctx.pick(1, 6))]
     nd = FC.traffic_stats(ctx, traces)
     FC.validate(ctx, traces, (ID + ".",) + ("C09.tick-frame-number", "C05.effect.ver"), "TV FakeTrxTrace (%s traffic sessions on the real Application)" % ID, discr)
     t0 = traces[0]
@@ -70,7 +71,7 @@ def one_schedule(scn, first, k1, k2, k3=None):
         sim.cmd(t, b"CMD RXTUNE %d\0" % rx)
         sim.cmd(t, b"CMD TXTUNE %d\0" % tx)
         sim.cmd(t, b"CMD POWERON\0")
-    if not (sim.app.clck_gen.clck_src == scn["fn"] and sim.trx[ms]._tx_queue == []):
+    if not (sim.app.clck_gen.clck_src == scn["fn"] and len(sim.trx[ms]._tx_queue) == 0):
         raise ResetFailed("power cycling did not restart the clock / clear the queue")
     for m in scn["q"]:
         sim.data(ms, FC.tx_datagram(0, m["fn"], m["id"], 0, bytes(148)))
